@@ -78,6 +78,16 @@ CHECKS = {
         'shared between obsolete and current terms, clashing ids, both ontology kinds, all query forms, identity of the returned object.',
         'Trusted: Coq kernel + vm_compute; dict modelled as association list with in-place overwrite; object identity rendered as list position.',
         '§4 C06'),
+    'C10': (
+        'Coq proof (loop invariant of the pair loop over an abstract MICA function; MICA = declarative max over common ancestors via the proved helper/graph models; branch coverage) + per-run vm_compute correspondence with src/hpotk/algorithm/similarity/_resnik.py',
+        'Machine-checked theorem for every ontology graph built from an acyclic edge list that contains HP:0000118 and EVERY information-content map '
+        '(monotone or not, entries missing): the precomputation succeeds and for all terms a, b the stored similarity v satisfies v = sim(b,a), '
+        '0 <= v <= m, v in {0, m}, and v = m whenever a and b lie below the same child of Phenotypic abnormality, where m = max(0, max IC over the common '
+        'ancestors, each term its own ancestor) - a value proved unique and symmetric; every stored value is > 0 (all other pairs read 0). The pair loop is '
+        'proved for any MICA function by a loop invariant over the C15 container model (terms shared between branches included). Without HP:0000118 the '
+        'function raises ValueError. Correspondence: random multi-branch multi-parent ontologies x 6 kinds of IC maps, all ordered pairs read back, len, items.',
+        'Trusted: as C01/C15/C18; IC values dyadic and embedded exactly in Z. Hypothesis: term-id prefixes contain no ":" (true of every parsed CURIE, C04).',
+        '§4 C10'),
     'C11': (
         'Coq proof (sound+complete characterisation of each validator over the proved graph and id-map models, with multiplicity; runner = concatenation) + per-run vm_compute correspondence with src/hpotk/validate/*.py',
         'Machine-checked theorems for every graph built from an acyclic edge list, every ontology over it and every item sequence whose ids the ontology '
